@@ -206,11 +206,16 @@ def pred_tempo(case, ctx):
 SHORT_NAMES = ["n", "no", "non", "none", "nan", "null", "x", "k", "m", "silence", "end", "0", "1", "-1", "t_min", "a b"]
 
 
+WS_NAMES = ["seg", "seg ", " seg", "seg\t", "s eg", " seg ", "seg\u00a0", "se g"]
+
+
 def _bijection(labels, seed, tag, short=False):
     rs = np.random.RandomState(seed)
     names = {}
     out = []
     pool = list(rs.permutation(SHORT_NAMES)) if short else None
+    if short and seed % 3 == 0:
+        pool = list(rs.permutation(WS_NAMES))      # distinct names that only differ in surrounding / inner white space
     for l in labels:
         k = l.lower()
         if k not in names:
